@@ -1,6 +1,7 @@
 import SpecterModel.C01.Drv
 import SpecterModel.C02.Drv
 import SpecterModel.C03.Drv
+import SpecterModel.C04.Drv
 import SpecterModel.C05.Drv
 import SpecterModel.C06.Drv
 import SpecterModel.C07.Drv
@@ -54,6 +55,7 @@ def main (args : List String) : IO UInt32 := do
   | ["C01"] => do Specter.C01.main; return 0
   | ["C02"] => do Specter.C02.main; return 0
   | ["C03"] => do Specter.C03.main; return 0
+  | ["C04"] => do Specter.C04.main; return 0
   | ["C05"] => do Specter.C05.main; return 0
   | ["C06"] => do Specter.C06.main; return 0
   | ["C07"] => do Specter.C07.main; return 0
